@@ -296,6 +296,8 @@ func runC10(c *Ctx, r *Report) {
 	importRules(c, r, "C11", []string{"R-C11.4", "R-C11.5", "R-C11.12"}, "R-C10.19")
 	r.Doc("R-C10.20", "the readers refuse a block only when reading or decoding it failed (adopted from C09: an acceptance test on the decoded entry — an empty payload is appendable — makes a limited load return too few entries, or an older one in the dropped entry's place)")
 	importRules(c, r, "C09", []string{"R-C09.8"}, "R-C10.20")
+	r.Doc("R-C10.21", "no fetch option handed to a loader is computed from the log's options (the log's sort function as the order in which a limited load is cut keeps other entries than the most recent ones)")
+	fetchOptionsFromFetchOptions(c, r, "R-C10.21")
 	r.Doc("R-C10.15", "nothing is allocated for the length limit itself: every sized allocation is bounded by a collection that exists (adopted from C15: a limit above the log's size returns the whole log)")
 	importRules(c, r, "C15", []string{"R-C15.15"}, "R-C10.15")
 	r.Doc("R-C10.12", "a fetched entry is never refused, and its predecessors never left unqueued, on a clock tie: wherever the fetcher compares an entry's clock time with a bound it tracks before admitting the entry or queueing its links, the condition is as true for an equal time as for a later one (the log's order breaks equal times by writer id, so a tied entry can still belong to the kept tail; treating it as older makes the outcome depend on block arrival order)")
